@@ -351,7 +351,7 @@ def run_extract(task):
             line = SymStr.of(task.get("prefix", "")) + "(" + words[0]
             for w in words[1:]:
                 line = line + " " + w
-            textv = textv + line + ")\n"
+            textv = textv + line + ")" + task.get("suffix", "") + task.get("sep", "\n")
             expect.append(([w.lower() for w in words], agent))
             # the symbolic words must not themselves be agent names (else the executing agent is ambiguous)
             for w in ws[1:]:
@@ -418,8 +418,10 @@ def concrete_extract(plan_text, agents):
     conv = spc.PlanConverter.__new__(spc.PlanConverter)
     conv.logger = logging.getLogger("verif")
     want = []
-    for line in plan_text.splitlines():
-        body = line[line.index("("):].lower().replace("(", " ").replace(")", " ").split()
+    # every parenthesised call of the text, in order (planners write an index or a time stamp before a call, a duration after it,
+    # indent lines, and some put several calls on one line)
+    for call in real_re.findall(r"\(([^()]*)\)", plan_text):
+        body = call.lower().split()
         want.append([body[0], body[1:], next(w for w in body[1:] if w in agents)])
     try:
         got = [[ac.name, list(ac.parameters), ag] for ac, ag in conv._extract_plan_actions(plan_text, list(agents))]
@@ -445,6 +447,10 @@ def tasks_for(tier, seed):
     for shape in ([([1, 1], "a1")], [([2], "a2"), ([1, 1], "a1")], [([1, 1, 1], "a1")]):
         for prefix in ("", "0: ", "12: "):
             tasks.append({"kind": "extract", "shape": shape, "agents": ["a1", "a2"], "prefix": prefix})
+        # what planners write around a call: a decimal time stamp and a duration, indentation, a label, several calls per line
+        for prefix, suffix, sep in (("0.001: ", " [1.000]", "\n"), ("   ", "", "\n"), ("step 3: ", "", "\n"), ("\t7 : ", "", "\n"), ("", "", " "),
+                                    ("", " ", "")):
+            tasks.append({"kind": "extract", "shape": shape, "agents": ["a1", "a2"], "prefix": prefix, "suffix": suffix, "sep": sep})
     # an action that also names other agents after the executing one (hand-over): the executing agent is the first agent
     # name among the arguments, whatever the order of the agent list
     for shape in ([([1, 1], "a2", ["a1"])], [([1], "a3", ["a1", "a2"]), ([1, 1], "a1", ["a3"])], [([1], "a2", ["a2"])]):
